@@ -60,6 +60,116 @@ def all_strings(alpha, maxlen):
             yield "".join(t)
 
 
+def _lru_real(LRUCache, cap, ops):
+    """Run ops on the real class. -> (outputs, items, per-step snapshots of items)."""
+    c = LRUCache(cap)
+    outs, snaps = [], []
+    for op in ops:
+        try:
+            if op[0] == "s":
+                c[op[1]] = op[2]
+                outs.append("u")
+            elif op[0] == "g":
+                outs.append(f"v:{c[op[1]]}")
+            elif op[0] == "q":
+                r = c.get(op[1])
+                outs.append("u" if r is None else f"v:{r}")
+            elif op[0] == "c":
+                outs.append("b:1" if op[1] in c else "b:0")
+            else:
+                outs.append(f"n:{len(c)}")
+        except KeyError:
+            outs.append("E")
+        except BaseException as e:  # noqa: judged by the comparison, never a harness error
+            outs.append(f"err:Other:{type(e).__name__}")
+        snaps.append(list(c.items()))
+    return outs, list(c.items()), snaps
+
+
+def _lru_oracle(cap, ops):
+    """The statement of lru_refines_plain_map, executable and independent of the Lean model: a plain dict that never
+    evicts plus the recency order of its keys; yields after every op the expected (output, items) for capacity >= 1."""
+    plain, order = {}, []  # order: oldest first, every key ever stored
+    for op in ops:
+        live = order[-cap:]
+        out = None
+        if op[0] == "s":
+            k, v = op[1], op[2]
+            if k not in live:
+                if k in order:
+                    order.remove(k)
+                order.append(k)
+            plain[k] = v
+            out = "u"
+        elif op[0] == "g":
+            k = op[1]
+            if k in live:
+                out = f"v:{plain[k]}"
+                order.remove(k)
+                order.append(k)
+            else:
+                out = "E"
+        elif op[0] == "q":
+            out = f"v:{plain[op[1]]}" if op[1] in live else "u"
+        elif op[0] == "c":
+            out = "b:1" if op[1] in live else "b:0"
+        else:
+            out = f"n:{len(live)}"
+        yield out, [(k, plain[k]) for k in order[-cap:]]
+
+
+def _lru_enc(ops):
+    return ",".join(":".join(str(x) for x in op) for op in ops)
+
+
+def _lru_one(ctx, LRUCache, cap, ops, sample=None):
+    outs, items, snaps = _lru_real(LRUCache, cap, ops)
+    answer = ",".join(outs) + "|" + ",".join(f"{k}:{v}" for k, v in items)
+    ctx.case("lru_ops", [cap, _lru_enc(ops)], answer, shape=f"cap{cap}", sample=sample)
+    if cap >= 1:
+        ctx.case("lru_abs", [cap, _lru_enc(ops)], answer, shape=f"cap{cap}")
+        ok, why = True, ""
+        for i, ((eo, ei), o, sn) in enumerate(zip(_lru_oracle(cap, ops), outs, snaps)):
+            if o != eo or sn != ei:
+                ok, why = False, f"after op {i} {ops[i]}: output {o}, items {sn}; a plain dict restricted to its {cap} most recent keys gives {eo}, {ei}"
+                break
+            if len(sn) > cap:
+                ok, why = False, f"after op {i}: {len(sn)} items in a cache of capacity {cap}"
+                break
+        ctx.check(ok, "LRUCache", (cap, ops), why or "ok")
+    else:
+        # capacity <= 0: __setitem__ raises KeyError from popitem() and nothing is ever stored (theorem lru_cap_zero)
+        ok = items == [] and all(o == "E" for o, op in zip(outs, ops) if op[0] in "sg")
+        ctx.check(ok, "LRUCache", (cap, ops), f"capacity {cap}: outputs {outs}, items {items}; expected KeyError on every store / subscript and an empty cache")
+    for o in outs:
+        ctx.note("lru:out:" + o.split(":")[0])
+    ctx.note(f"lru:evicting:{cap >= 1 and len({op[1] for op in ops if op[0] == 's'}) > cap}")
+
+
+def _lru_sequences(ctx, LRUCache):
+    rng = ctx.rng
+    # bounded-exhaustive: every sequence of <= L ops over {c[k]=fresh, c[k], c.get(k)} x keys 0..2 + len, capacity 1 and 2
+    # (values are the op index + 10, so a stale or misplaced value is visible)
+    L = 4 if ctx.quick else 5
+    alpha = [("s", k) for k in range(3)] + [("g", k) for k in range(3)] + [("q", k) for k in range(3)] + [("l",)]
+    for n in range(0, L + 1):
+        for seq in itertools.product(alpha, repeat=n):
+            ops = [(o[0], o[1], 10 + i) if o[0] == "s" else o for i, o in enumerate(seq)]
+            for cap in (1, 2):
+                _lru_one(ctx, LRUCache, cap, ops, sample=f"LRUCache({cap}) ops {ops!r}" if n == L and rng.random() < 0.001 else None)
+    # seeded random beyond: longer histories, capacities -1..8 (<= 0: every store raises), all five operations
+    for _ in range(2000 if ctx.quick else 40000):
+        cap = rng.choice([-1, 0, 1, 1, 2, 2, 3, 3, 4, 8])
+        nkeys = max(cap, 1) + rng.randint(1, 3)
+        ops = []
+        for i in range(rng.randint(1, 30)):
+            kind = rng.choice("ssssgggqqcl")
+            k = rng.randrange(nkeys)
+            ops.append(("s", k, rng.randint(0, 99)) if kind == "s" else ("l",) if kind == "l" else (kind, k))
+        _lru_one(ctx, LRUCache, cap, ops)
+    ctx.flush()
+
+
 def run(ctx):
     import rich.cells as cells
     from rich._cell_widths import CELL_WIDTHS
@@ -119,6 +229,10 @@ def run(ctx):
         ctx.check(got == want, "cell_len(cache)", (cap, calls), f"cached results {got} differ from the sum of character widths {want}")
         ctx.check(len(cache) <= cap, "LRUCache", (cap, calls), "cache grew beyond its capacity")
         ctx.case("cache_hist", [cap, enc_str_list(calls)], " ".join(map(str, got)), shape=f"cap{cap}", sample=f"cell_len history cap={cap} {calls!r}")
+        # the cache CONTENT after the history (keys oldest first, values): cell_len goes through OrderedDict.get (no recency
+        # refresh) and LRUCache.__setitem__ (eviction of the oldest), so the order and the survivors are part of the model
+        kv = list(cache.items())
+        ctx.case("cache_state", [cap, enc_str_list(calls)], enc_str_list([k for k, _ in kv]) + "#" + " ".join(str(v) for _, v in kv), shape=f"cap{cap}")
     for s in pool:  # the real, shared cache, whatever is in it by now
         ctx.check(cells.cell_len(s) == sum(ref[ord(ch)] for ch in s), "cell_len", s, "cell_len differs from the sum of character widths")
         ctx.case("cell_len", [enc_str(s)], cells.cell_len(s))
@@ -127,6 +241,9 @@ def run(ctx):
             for t in (base, base + e, e + base, base + e + e):
                 ctx.check(cells.cell_len(t) == sum(ref[ord(ch)] for ch in t), "cell_len", (base, t), "cell_len (shared cache, after measuring a neighbouring string) differs from the sum of character widths")
                 ctx.case("cell_len", [enc_str(t)], cells.cell_len(t))
+
+    # ---- 2b. LRUCache as a state machine (deepening round 4): op sequences against the real class
+    _lru_sequences(ctx, LRUCache)
 
     # ---- 3. set_cell_size / chop_cells
     maxlen = 5 if ctx.quick else 7
@@ -145,15 +262,42 @@ def run(ctx):
             okp = any(got == s[:j] + " " * (len(got) - j) for j in range(min(len(got), len(s)), -1, -1) if got[:j] == s[:j])
             ctx.check(ok and okp, "set_cell_size", (s, total), f"result {got!r} is not exactly {total} cells made of a prefix plus spaces")
             ctx.case("set_cell_size", [enc_str(s), total], enc_str(got), shape=("crop" if clen > total else "pad" if clen < total else "same"), sample=f"set_cell_size({s!r},{total})")
-        widths = range(1, 7) if len(s) <= maxlen else [2, 3, rng.randint(2, 100)]
+        for total in ((-1, -2, -7) if len(s) <= maxlen else (-1, -rng.randint(2, 50))):
+            try:
+                got = cells.set_cell_size(s, total)
+            except BaseException as e:  # noqa
+                got = None
+                ctx.check(False, "set_cell_size", (s, total), f"raised {type(e).__name__}")
+            if got is not None:
+                ctx.check(got == "", "set_cell_size", (s, total), f"negative total gave {got!r}, not the empty string")
+                ctx.case("set_cell_size_i", [enc_str(s), total], enc_str(got), shape="negative")
+        for total in ((0, 1, 2) if len(s) <= 3 else ()):  # the integer model on the non-negative side as well
+            ctx.case("set_cell_size_i", [enc_str(s), total], enc_str(cells.set_cell_size(s, total)), shape="nonneg")
+        widths = range(0, 7) if len(s) <= maxlen else [0, 1, 2, 3, rng.randint(2, 100)]
         for m in widths:
-            for p in (range(0, m + 1) if len(s) <= 4 else [0, rng.randint(0, m)]):
-                got = cells.chop_cells(s, m, position=p)
+            # positions beyond the width too: divide_line passes the cell length of the previous word WITH its trailing
+            # spaces, which may exceed the width (deepening round 4: theorem chop_cells_first_piece has no p <= m)
+            for p in (range(0, m + 4) if len(s) <= 4 else [0, rng.randint(0, m), rng.randint(m + 1, m + 3)]):
+                try:
+                    got = cells.chop_cells(s, m, position=p)
+                except BaseException as e:  # noqa: an exception here is a property failure, not a harness error
+                    ctx.check(False, "chop_cells", (s, m, p), f"raised {type(e).__name__}")
+                    ctx.case("chop_cells", [enc_str(s), m, p], f"err:Other:{type(e).__name__}")
+                    continue
                 ok = "".join(got) == s
                 if m >= 2:
                     ok = ok and all(sum(ref[ord(ch)] for ch in q) <= m for q in got)
                     ok = ok and (p + sum(ref[ord(ch)] for ch in got[0]) <= m or got[0] == "")
                 ctx.check(ok, "chop_cells", (s, m, p), f"pieces {got!r} do not concatenate to the input or do not fit")
+                # chop_cells_first_piece, every clause, for every m and p
+                wq = [sum(ref[ord(ch)] for ch in q) for q in got]
+                ok1 = len(got) >= 1 and (got[0] == "" or p + wq[0] <= m)
+                ok2 = all(q != "" and (w <= m or (len(q) == 1 and w > m)) for q, w in zip(got[1:], wq[1:]))
+                ok3 = all(got[i + 1] != "" and (p if i == 0 else 0) + wq[i] + ref[ord(got[i + 1][0])] > m for i in range(len(got) - 1))
+                ctx.check(ok1, "chop_cells", (s, m, p), f"first piece of {got!r} is not empty and does not fit behind position {p}")
+                ctx.check(ok2, "chop_cells", (s, m, p), f"a later piece of {got!r} is empty, or too wide without being a single too-wide character")
+                ctx.check(ok3, "chop_cells", (s, m, p), f"pieces {got!r} are not greedy: the first character of a piece would have fitted on the piece before")
+                ctx.note(f"chop:{'p>m' if p > m else 'p<=m'}:{'first-empty' if got[0] == '' else 'first-nonempty'}")
                 ctx.case("chop_cells", [enc_str(s), m, p], enc_str_list(got), shape=f"pieces{min(len(got), 4)}", sample=f"chop_cells({s!r},{m},{p})")
     ctx.flush()
 
@@ -230,6 +374,27 @@ def run(ctx):
         ctx.check(ok, "split_and_crop_lines", (segs, length, st, pad, nl), why, finding=finding)
         ctx.case("split_crop", [eline, length, enc_opt(sid), enc_bool(pad), enc_bool(nl), REBIND], enc.lines(got), shape=f"lines{min(len(got), 4)}", sample=f"split_and_crop_lines({segs!r},{length},style={st!r},pad={pad},nl={nl})")
 
+        # deepening round 4: get_line_length, make_control, Segment.control, __bool__ / cell_length of one segment
+        try:
+            gll = Segment.get_line_length(list(line))
+            want_ll = sum(sum(ref[ord(ch)] for ch in x.text) for x in line if not x.is_control)
+            ctx.check(gll == want_ll, "get_line_length", line, f"get_line_length {gll} is not the sum of the widths of the non-control characters {want_ll}")
+            ctx.case("line_length", [enc.line(line)], gll)
+            mc = list(Segment.make_control(list(segs)))
+            ctx.check(all(x.is_control for x in mc) and [(x.text, x.style) for x in mc] == [(x.text, x.style) for x in segs] and Segment.get_line_length(mc) == 0,
+                      "make_control", segs, "make_control changed a text / style, left a non-control segment, or the result has a cell length")
+            ctx.case("make_control", [eline], enc.line(mc))
+            if segs:
+                s0 = segs[0]
+                ctx.check(bool(s0) == (s0.text != "") and s0.cell_length == (0 if s0.is_control else sum(ref[ord(ch)] for ch in s0.text)),
+                          "Segment.cell_length", s0, "bool(segment) / segment.cell_length wrong (a control segment measures 0 cells)")
+                ctx.case("seg_bool_len", [enc.seg(s0)], f"{enc_bool(bool(s0))} {s0.cell_length}", shape=f"ctl{int(bool(s0.is_control))}")
+                c0 = Segment.control(s0.text, s0.style)
+                ctx.check(c0.is_control is True and c0.text == s0.text and c0.style == s0.style and c0.cell_length == 0, "Segment.control", s0, "Segment.control is not the control segment with that text and style")
+                ctx.case("seg_control", [enc_str(s0.text), enc_opt(enc.sid(s0.style))], enc.seg(c0))
+        except BaseException as e:  # noqa: an exception in these helpers is a property failure
+            ctx.check(False, "segment helpers", segs, f"raised {type(e).__name__}")
+
         # set_shape on the split lines
         h = rng.choice([None, 0, 1, 2, 3, 5])
         got = Segment.set_shape([list(l) for l in ref_lines], length, h, style=st)
@@ -245,6 +410,12 @@ def run(ctx):
             finding = "simplify-merges-control"
         ctx.check(same, "simplify", segs, "simplify changed the (character, style, control) stream", finding=finding)
         ctx.case("simplify", [eline, MERGE_CTL], enc.line(got), shape=f"n{len(segs)}", sample=f"simplify({segs!r})")
+    for flag in (False, True):  # Segment.line(): a "\n" segment without style, text or control
+        ln = Segment.line(flag) if flag else Segment.line()
+        ctx.check(ln.text == "\n" and ln.style is None and bool(ln.is_control) == flag and ln.cell_length == 0, "Segment.line", flag, "Segment.line() is not the unstyled line-feed segment of 0 cells")
+        ctx.case("seg_line", [enc_bool(flag)], enc.seg(ln))
+    got = [list(l) for l in Segment.split_lines([Segment("a"), Segment.line(), Segment("b", styles[1]), Segment.line(True), Segment("c")])]
+    ctx.check([[x.text for x in l] for l in got] == [["a"], ["b", "\n", "c"]], "Segment.line", got, "split_lines does not split at Segment.line() / splits at a control line segment")
     # ---- 5. style-level helpers on duck-typed styles (ids; add a b = 100a+b; falsy iff id == 0)
     class FS:
         __slots__ = ("id",)
@@ -321,7 +492,12 @@ def run(ctx):
         "+ seeded random segment lists (<=4 segments over %d texts, 4 styles, control flags) x length 0..8 x pad x style "
         "+ seeded random segment lists with duck-typed styles (5 style values) for apply_style / filter_control / strip_styles / "
         "strip_links / remove_color / get_shape; "
-        "distinct = distinct canonical requests" % (maxlen, ALPHA, len(texts))
+        "+ (round 4) chop_cells at widths 0..6 and positions 0..width+3 (beyond the width too); set_cell_size with negative totals; "
+        "LRUCache op sequences against the real class: every sequence of <= %d operations over {c[k]=v, c[k], c.get(k)} x keys 0..2 "
+        "+ len, capacity 1 and 2, then seeded random histories of 1..30 operations (all five kinds) at capacities -1..8; the "
+        "cache content (order and values) after every cell_len history; get_line_length / make_control / Segment.control / "
+        "Segment.line / bool(segment) / cell_length on the segment lists; "
+        "distinct = distinct canonical requests" % (maxlen, ALPHA, len(texts), 4 if ctx.quick else 5)
     )
 
 
@@ -333,27 +509,46 @@ def replay(ctx, case):
     return False
 
 MANIFEST = {
-    "text": "Lean 4 theorems (Props/C13.lean, 25, no bound on string length, table size, cache history or segment list): "
+    "text": "Lean 4 theorems (Props/C13.lean, 37, no bound on string length, table size, cache history or segment list): "
     "binary search = first-match linear scan for every code point given the sortedDisjoint side condition, which is "
     "re-proved by `decide +kernel` on the table translated from rich/_cell_widths.py on every run; cache transparency for "
-    "every capacity and call history; set_cell_size exactness; chop_cells concatenation/fit; adjust_line_length / "
-    "split_and_crop_lines / set_shape exact lengths, stream preservation and padding style; simplify stream preservation; "
+    "every capacity and call history; set_cell_size exactness (and, round 4, for every integer total: the empty string when "
+    "negative); chop_cells concatenation/fit; round 4: chop_cells for EVERY width and starting position (no p <= m, no "
+    "m >= 2): first piece empty or position + its width <= width, later pieces non-empty and fitting unless a single "
+    "too-wide character, greedy maximality, and uniqueness (these clauses determine the output: chop_cells_unique); "
+    "round 4: rich/_lru_cache.py LRUCache as a state machine over __setitem__ / __getitem__ / get / in / len with KeyError "
+    "branches, refined for every capacity >= 1 and every operation history to a plain association list that never evicts, "
+    "observed through its `cap` most recent keys (lru_refines_plain_map, _from), whose lookup is the Function.update map of "
+    "the history; corollaries len <= capacity, distinct keys, a hit is never stale; capacity 0 raises KeyError on every "
+    "store; the Cache model under cell_len is that machine's get/__setitem__ (capacity >= 1); "
+    "adjust_line_length / split_and_crop_lines / set_shape exact lengths, stream preservation and padding style; "
+    "simplify stream preservation; make_control / Segment.line measure 0 cells; "
     "the style-level helpers: apply_style keeps texts, control flags and cell length and leaves control segments unstyled, "
     "strip_styles / strip_links / remove_color keep texts and control flags, filter_control is the ordered sub-list with the "
     "flag and dropping control segments keeps the cell length, get_shape is an enclosing rectangle; two `old_` witnesses for "
     "the two repaired defects. "
-    "Tie: all 1,114,112 code points and ~210k further generated cases per quick run compared model-vs-rich (211,867 in the "
-    "recorded quick run, seed 2), plus the theorems' executable statements evaluated on rich's own outputs (221,533 direct "
-    "evaluations in that run, so ~430k non-code-point evaluations in all). Thorough: strings <= 7 plus 3,000 random strings "
-    "of 8..80 characters, 6,000 cache histories, 250,000 segment lists, 120,000 style-helper segment lists (~3.7M compared "
-    "was the builders' figure before the style-helper cases were added; not re-measured since).",
+    "Tie: all 1,114,112 code points and ~360k further generated cases per quick run compared model-vs-rich (26 driver entry "
+    "points; recorded quick run, seed 3: 1,475,480 compared, 0 mismatches, 0 unmodelled, ~24 s wall), plus the theorems' "
+    "executable statements evaluated on rich's own outputs (657,994 direct evaluations: every clause of chop_cells_first_piece on ~104k "
+    "chop_cells calls incl. positions beyond the width and width 0/1; ~24.5k LRUCache histories judged after every operation "
+    "against an independent plain-dict-plus-recency oracle). LRUCache sequences: bounded-exhaustive <= 4 ops (quick) / <= 5 "
+    "(thorough) over 10 operations x capacity 1, 2 (22,222 / 222,222 histories), then 2,000 / 40,000 seeded random histories. "
+    "Thorough otherwise as before: strings <= 7 plus 3,000 random strings of 8..80 characters, 6,000 cache histories, 250,000 "
+    "segment lists, 120,000 style-helper segment lists.",
     "note": "Trusted: Lean kernel; axioms propext/Classical.choice/Quot.sound; translator harness/tables.py; the correspondence "
     "harness; styles are opaque ids in the segment model; lone surrogates go through the raw code-point path only. "
-    "functools.lru_cache on _get_codepoint_cell_size is assumed transparent (exercised, not modelled). "
+    "functools.lru_cache on _get_codepoint_cell_size is still assumed transparent (a pure function of one int; exercised by the "
+    "exhaustive sweep, not modelled). LRUCache: only the two overridden methods and the inherited get / in / len are modelled; "
+    "the other inherited OrderedDict mutators (del, pop, popitem, update, setdefault, move_to_end, clear) are not, and the "
+    "refinement to 'plain map restricted to the most recent keys' is false once `del` is allowed (a deletion would resurrect "
+    "an evicted key in the view). cache_size <= 0 is modelled as 0. The pre-existing `Cache.set` stores at capacity 0 where "
+    "Python raises KeyError (cell_len_cache_is_lru is stated for capacity >= 1 or a non-empty cache; the harness drives "
+    "cell_len histories at capacities 1..8 only, and capacity 0 / -1 through the new lru_ops entry, which raises). "
     "Variant flags: REBIND = 0, MERGE_CTL = 0 (the repaired code; 1 = rich 9.10.0 as found, before fix b83f6d1 / b97fe77). "
     "No `known:` finding is recorded for C13, so the check prints no KNOWN-FINDING line; the slugs splitcrop-pad-style-rebound "
     "and simplify-merges-control only classify a failure of those two statements, which is a VIOLATION on the repaired code. "
     "For the style-level helpers Style.__add__ / __bool__ / update_link / without_color are parameters of the model, "
-    "instantiated by duck-typed style objects in the harness (real Style objects are used for the line-shaping cases).",
+    "instantiated by duck-typed style objects in the harness (real Style objects are used for the line-shaping cases). "
+    "adjust_line_length / set_shape with a negative length are outside the driven domain (lengths are naturals in the model).",
     "design_ref": "DESIGN.md section 7, C13",
 }
